@@ -115,3 +115,32 @@ Definition checkD (k : caseD) : bool := res_beq obj_beq (run_dop (d_dv k) (d_a k
 From Verif Require Import C20.Tables.
 Record caseV := { cv_v : variants }.
 Definition checkV (k : caseV) : bool := Bool.eqb (v_arrw_hash_type (cv_v k)) table_arrw_hash_type.
+
+(* ------------------------------------------------------------ element() *)
+From Verif Require Import C20.Element.
+
+(* what the harness observes of  r = S.element(inp) *)
+Inductive obs :=
+| BSame                                    (* r is inp *)
+| BTens (data : list Q) (shares : bool)    (* values; np.shares_memory with the input's buffer *)
+| BProd (parts : list obs)
+| BValueErr | BTypeErr.
+
+Fixpoint obs_match (r : @eres Q) (o : obs) {struct r} : bool :=
+  match r, o with
+  | RSame, BSame => true
+  | RTens d a, BTens d' s => all2 Qeq_bool d d' && Bool.eqb (match a with Some _ => true | None => false end) s
+  | RProdE ps, BProd os =>
+      (fix go (ps : list (@eres Q)) (os : list obs) {struct ps} : bool :=
+         match ps, os with
+         | [], [] => true
+         | p :: ps', o :: os' => obs_match p o && go ps' os'
+         | _, _ => false
+         end) ps os
+  | RValueErr, BValueErr => true
+  | RTypeErr, BTypeErr => true
+  | _, _ => false
+  end.
+
+Record caseE := { x_v : variants; x_S : obj Q; x_inp : @inp Q; x_out : obs }.
+Definition checkE (k : caseE) : bool := obs_match (element (x_v k) (x_S k) (x_inp k)) (x_out k).
